@@ -5,6 +5,7 @@
 package rt
 
 import (
+	"runtime/debug"
 	"bufio"
 	"bytes"
 	"encoding/hex"
@@ -939,6 +940,21 @@ func diffAt(a, b string) string {
 	return fmt.Sprintf("@%d ..%s..", i, a[lo:hi])
 }
 
+// shortStack: the frames of the generated package / runtime library on the panicking stack
+func shortStack() string {
+	var sb strings.Builder
+	for _, l := range strings.Split(string(debug.Stack()), "\n") {
+		l = strings.TrimSpace(l)
+		if strings.Contains(l, ".go:") && !strings.Contains(l, "/runtime/") && !strings.Contains(l, "reflect/") && !strings.Contains(l, "harness/rt") {
+			if i := strings.LastIndex(l, "/"); i >= 0 {
+				l = l[i+1:]
+			}
+			sb.WriteString(strings.Fields(l)[0] + " ")
+		}
+	}
+	return sb.String()
+}
+
 func sign(x int) int {
 	if x < 0 {
 		return -1
@@ -966,7 +982,7 @@ func (e *Env) RunC09(c *Case) (out *Out) {
 	out.C09 = res
 	defer func() {
 		if r := recover(); r != nil {
-			out.Panic = fmt.Sprint(r)
+			out.Panic = fmt.Sprint(r) + " @ " + shortStack()
 		}
 	}()
 	e.Raw = true
@@ -1095,7 +1111,10 @@ func (e *Env) RunCase(c *Case) (out *Out) {
 					if cp, ok := op["copy"].(bool); ok && cp {
 						// the value is built in a detached record and handed over with CopyFrom
 						e.lastArr = nil
-						tmp := e.newRecord(c.Root)
+						// (a fresh record of the same type; no second writer is created: NewWriter of a
+						// wrapped root may write into the sink of the writer under test)
+						tmp := reflect.New(rec.Type().Elem())
+						call(tmp, "Init")
 						e.set(rootT, tmp, op["v"], so)
 						e.lastArr = nil
 						call(rec, "CopyFrom", tmp)
